@@ -344,7 +344,8 @@ def check_cache_results(c, rkind, seq):
             return
         c.check(len(calls) - before == (0 if a in seen else 1), 'C18:cache:count:falsy-or-None-result',
                 '%s: g evaluated %d time(s), expected %d' % (txt, len(calls) - before, 0 if a in seen else 1), call)
-        c.check(r is made[a], 'C18:cache:value:falsy-or-None-result', '%s returned %r, the first result was %r' % (txt, r, made[a]), call)
+        c.check(a in made and r is made[a], 'C18:cache:value:falsy-or-None-result',
+                '%s returned %r, %s' % (txt, r, 'the first result was %r' % (made[a],) if a in made else 'although g was never evaluated for this argument'), call)
         seen.add(a)
 
 
